@@ -47,6 +47,18 @@ def gen(rng, tier, i):
     if rng.random() < 0.2: defs['NETDEAD_SCRIPT'] = lpc_str('bomb %d err' % _bomb(st, 'net_dead'))
     if 'USER_PROCESS_INPUT' in defs and rng.random() < 0.15: defs['PI_SCRIPT'] = lpc_str('bomb %d err' % _bomb(st, 'pi'))
     if rng.random() < 0.1: defs['WRITE_PROMPT_SCRIPT'] = lpc_str('bomb %d err' % _bomb(st, 'prompt'))
+    # preloaded objects (loaded by the master's epilog/preload before backend() starts): their heart beats run in the
+    # driver's very first tick, before any connection exists
+    if rng.random() < 0.2:
+        pre = []
+        for k in range(rng.randint(1, 3)):
+            how = rng.choice(('err', 'err', 'typeerr', 'throw', 'forever'))
+            r = rng.random()
+            hb = 'bomb %d %s' % (_bomb(st, 'prehb'), how) if r < 0.6 else 'rec prehb'
+            cr = 'bomb %d err' % _bomb(st, 'precreate') if rng.random() < 0.2 else 'rec precreate'
+            p.file('pre%d.c' % k, 'inherit "/vobj";\nvoid create() { ::create(); set_tag("p%d"); set_script("hb", "%s"); set_hb(1); run("%s"); }\n' % (k, hb, cr))
+            pre.append('"/pre%d"' % k)
+        defs['PRELOAD_LIST'] = '({ ' + ', '.join(pre) + ' })'
     p.file('mcfg.h', mcfg(defs))
     p.opt('epoll_seed', rng.randint(1, 1 << 30))
     if console_mode:
@@ -67,7 +79,7 @@ def gen(rng, tier, i):
     use_inject = eh in ('ok',) and rng.random() < 0.6
     if use_inject and rng.random() < 0.5:
         p.opt('fault_exempt_master', 1)
-    enabled = set(k for k in ('tick', 'connect', 'cmd', 'partial', 'close', 'bombcmd', 'hb', 'co', 'inputto', 'vobj', 'stall', 'quit', 'limit')
+    enabled = set(k for k in ('tick', 'connect', 'cmd', 'partial', 'close', 'bombcmd', 'hb', 'co', 'inputto', 'vobj', 'stall', 'quit', 'limit', 'nf')
                   if rng.random() < 0.7)
     enabled.add('tick')
     if has_net: enabled.add('connect')
@@ -178,6 +190,12 @@ def gen(rng, tier, i):
             how = rng.choice(('quit', 'rmi me', 'dest me'))
             if c != 'con': conns[c]['alive'] = False
             p.cycle(say(c, 'do ' + how))
+        elif a == 'nf':
+            # a failing command whose notify_fail() function runs a script (the driver calls it after every action said no)
+            c = rng.choice(t)
+            scr = bomb_script('nf').replace(';', ',') if rng.random() < 0.6 else 'rec nfran'
+            for _ in range(rng.choice((1, 1, 2, 4))):
+                p.cycle(say(c, 'nf ' + scr))
         elif a == 'limit':
             c = rng.choice(t)
             p.cycle(say(c, 'do ' + rng.choice(('bomb %d forever' % _bomb(st, 'limit'), 'bomb %d deepforever' % _bomb(st, 'limit'), 'deep 9', 'spend 300'))))
@@ -185,6 +203,17 @@ def gen(rng, tier, i):
             p.cycles[-1].insert(0, fault(rng.choice((0, 1, 2, 3, 5, 8, 13, 21, 34, 55, 89, 144, 233)), rng.choice(('error', 'error', 'error', 'evalcost'))))
         if rng.random() < 0.3:
             p.idle(rng.randint(1, 2))
+    # "once or repeatedly": now and then one task kind fails more often than any fixed-size driver table has slots
+    if rng.random() < (0.02 if tier == 'quick' else 0.04) and targets():
+        c = rng.choice(targets())
+        kind_s = rng.choice(('nf', 'bombcmd', 'inputto', 'hb'))
+        for _ in range(1030):
+            if kind_s == 'nf': p.cycle(say(c, 'nf bomb %d err' % _bomb(st, 'storm')))
+            elif kind_s == 'bombcmd': p.cycle(say(c, 'do bomb %d err' % _bomb(st, 'storm')))
+            elif kind_s == 'inputto':
+                p.cycle(say(c, 'do inputto 0 bomb %d err' % _bomb(st, 'storm'))); p.cycle(say(c, 'x'))
+            else:
+                p.cycle(say(c, 'do sc me hb bomb %d err;hb me 1' % _bomb(st, 'storm'))); p.cycle(tick())
     # quiescence tail: no more faults; survivors must be served, timers must run, a new connection must be accepted
     p.cycle('idle'); p.cycle('idle')
     p.meta['tail_at'] = len(p.cycles)
@@ -249,16 +278,33 @@ def check(plan, res):
     return v
 
 
+def _error_cycles(res):
+    """backend cycles in which some task ended in an uncaught error (such a cycle may legitimately cut its remaining work short)"""
+    out = set()
+    for e in res.events:
+        if (e.kind == 'R' and e.rest.startswith('ERR ')) or e.kind == 'fault_fired' or \
+           (e.kind == 'D' and ('rror' in e.rest or 'Too long' in e.rest or 'Too deep' in e.rest or 'turned off' in e.rest or '\t*' in e.rest)) or \
+           (e.kind == 'R' and re.match(r'U \S+ B\d+', e.rest)):          # a bomb op executed: without a master error_handler only the debug log shows it
+            out.add(e.cycle)
+    return out
+
+
 def _hb_failing_off(plan, res):
     """an object whose heart_beat raised an uncaught error must not beat again until somebody re-enables it"""
     v = []
     last_task = None
     failed = {}      # tag -> cycle of failure
+    last_do = ''
     for e in res.events:
         if e.kind == 'cycle': last_task = None
+        elif e.kind == 'fault_fired':
+            # an injected fault can land inside a command that re-enables a heart beat, after the efun and before the
+            # HBSET record: from then on nothing is known about which heart beats that command switched on
+            if re.search(r'(^|[;,~ ])hb \S+ [1-9]', last_do): failed.clear()
         elif e.kind == 'R':
             w = e.rest.split(' ')
             h = w[0]
+            if h == 'DO': last_do = e.rest
             if h == 'HB':
                 if w[1] in failed and e.cycle > failed[w[1]]:
                     v.append(Violation(PROP, 'hb-not-off', 'object %s raised an uncaught error in its heart_beat in cycle %d but its heart beat ran again in cycle %d' % (w[1], failed[w[1]], e.cycle),
@@ -270,7 +316,7 @@ def _hb_failing_off(plan, res):
             elif h == 'U' and len(w) > 2 and re.fullmatch(r'B\d+', w[2]):
                 # a bomb op executed: it ends in an uncaught error unless an LPC catch surrounds it (none in C09 plans)
                 if last_task and last_task[0] == 'HB' and last_task[1] == w[1]: failed.setdefault(w[1], e.cycle)
-            elif h in ('DO', 'CO', 'CMD', 'PI', 'PIB', 'INPUT', 'CHAR', 'LOGON', 'CONNECT', 'NETDEAD', 'RESET', 'CLEANUP', 'MOD', 'CREATE'):
+            elif h in ('DO', 'CO', 'CMD', 'NF', 'NFCB', 'PI', 'PIB', 'INPUT', 'CHAR', 'LOGON', 'CONNECT', 'NETDEAD', 'RESET', 'CLEANUP', 'MOD', 'CREATE'):
                 last_task = (h, w[1] if len(w) > 1 else '')
     return v
 
@@ -279,11 +325,7 @@ def _timers_alive(plan, res):
     """a call_out set by a healthy user must fire once enough error-free ticks have passed"""
     v = []
     evs = res.events
-    err_cycles = set()
-    for e in evs:
-        if (e.kind == 'R' and e.rest.startswith('ERR ')) or e.kind == 'fault_fired' or \
-           (e.kind == 'D' and ('rror' in e.rest or 'Too long' in e.rest or 'Too deep' in e.rest)):
-            err_cycles.add(e.cycle)
+    err_cycles = _error_cycles(res)
     sets = {}; fired = set(); gone = set()
     for e in evs:
         if e.kind == 'R':
@@ -324,6 +366,7 @@ def _liveness(plan, res):
     ncyc = len(plan.cycles)
     closed = set(); sent = {}
     pings = []  # (cycle idx, cid or 'con')
+    need_at = {}
     hdr = dec(next((h.split(' ')[2] for h in plan.header if h.startswith('file mcfg.h')), '%')).decode('latin-1')
     for ci, op, a in _plan_steps(plan):
         if op in ('eof', 'rst'): closed.add(int(a[0]))
@@ -333,7 +376,7 @@ def _liveness(plan, res):
             m = re.search(rb'do echo PING(\d+)\r?\n$', data)
             prev = sent.get(cid, b'')
             if m and int(m.group(1)) == cid and (prev == b'' or prev.endswith(b'\n')) and data.startswith(b'do echo PING'):
-                pings.append((ci, cid))
+                pings.append((ci, cid)); need_at[(ci, cid)] = len(prev) + len(data)
             sent[cid] = prev + data
         elif op == 'console':
             if dec(a[0]) == b'do echo PINGcon\n': pings.append((ci, 'con'))
@@ -359,8 +402,20 @@ def _liveness(plan, res):
         if e.kind == 'fault_fired': fired += 1; last_fault = max(last_fault, e.cycle)
         elif e.kind == 'R' and re.match(r'U \S+ B\d+', e.rest): last_fault = max(last_fault, e.cycle)
         elif e.kind == 'R' and e.rest.startswith('ERR '): last_fault = max(last_fault, e.cycle)
+    # the ping counts from the cycle in which its last byte reached the driver (earlier segmented sends queue ahead of it)
+    got = {}; arrived = {}
+    last_cycle = max((e.cycle for e in res.events), default=0)
+    for e in res.events:
+        if e.kind == 'recv':
+            m = re.match(r'conn=(\d+) n=(\d+)', e.rest)
+            if not m: continue
+            c = int(m.group(1)); got[c] = got.get(c, 0) + int(m.group(2))
+            for (pci, pc), n in need_at.items():
+                if pc == c and (pci, pc) not in arrived and got[c] >= n: arrived[(pci, pc)] = e.cycle
     for ci, cid in pings:
         if ncyc - ci < 4:      # bounded liveness needs its window
+            continue
+        if cid != 'con' and ((ci, cid) not in arrived or last_cycle - arrived[(ci, cid)] < 3):
             continue
         if fired < armed or last_fault >= ci + 1:
             continue
@@ -403,7 +458,7 @@ def _hb_locality(plan, res):
                 if st['on']: st['failed'] = False
             elif h == 'HB':
                 beats.setdefault(w[1], []).append(e.cycle); last_task = ('HB', w[1])
-            elif h in ('DO', 'CO', 'CMD', 'PI', 'PIB', 'INPUT', 'CHAR', 'LOGON', 'CONNECT', 'NETDEAD', 'RESET', 'CLEANUP', 'MOD', 'CREATE'):
+            elif h in ('DO', 'CO', 'CMD', 'NF', 'NFCB', 'PI', 'PIB', 'INPUT', 'CHAR', 'LOGON', 'CONNECT', 'NETDEAD', 'RESET', 'CLEANUP', 'MOD', 'CREATE'):
                 last_task = (h, w[1] if len(w) > 1 else '')
             elif h in ('QUIT', 'DEST') and len(w) > 1:
                 state.setdefault(w[1], {'on': False, 'failed': False, 'gone': True, 'since': e.cycle})['gone'] = True
@@ -419,11 +474,7 @@ def _hb_locality(plan, res):
             last_task = None
     # an uncaught error inside a heart beat ends that tick's round early (the property only promises that the
     # innocent objects' heart beats are not switched off), so only error-free tick cycles are judged
-    err_cycles = set()
-    for e in evs:
-        if (e.kind == 'R' and e.rest.startswith('ERR ')) or e.kind == 'fault_fired' or \
-           (e.kind == 'D' and ('rror' in e.rest or 'Too long' in e.rest or 'Too deep' in e.rest or 'turned off' in e.rest)):
-            err_cycles.add(e.cycle)
+    err_cycles = _error_cycles(res)
     clean = [c for c in tick_cycles if c not in err_cycles][-2:]
     inj = any(e.kind == 'fault_fired' for e in evs)
     for tag, st in state.items():
